@@ -213,7 +213,7 @@ def build(io, dim, nmark, variant, tag):
     return reg
 
 
-@unit("io_round_trip", props=("C17", "C18"), configs=_layouts(), kernels=False,
+@unit("io_round_trip", props=("C17",), configs=_layouts(), kernels=False,
       assumes=("h5py contract: datasets / attrs store verbatim copies, visit() enumerates all paths (svx stub)",
                "layouts bounded: dim 2/3, grids 3x4 / 2x3x4, marker counts 1..5 incl. N == dim, 1-2 Lagrangian grids, "
                "grids without fields, equal field names on two grids; values: opaque symbols (all contents)",
